@@ -85,11 +85,13 @@ CFG = {
 
 
 def nontrivial(c, r):
-    return r.startswith("hdr=9") or r.startswith("hdr=10")
+    return r.startswith("hdr=9") or r.startswith("hdr=10") or (c.startswith("G ") and r.startswith("ok "))
 
 
 def classify(c, r):
     t = c.split()
+    if t and t[0] == "G":
+        return "giant " + r.split(" ")[0]
     try:
         env = t[3][0] + ("c" if ",c" in t[3] else "")
         opt = t[1] + ("+fl" if t[2] != "-" else "")
